@@ -66,8 +66,118 @@ let cmd_doc_with f line =
       doc_string (f t (n_of_int (int_of_string lo)) (n_of_int (int_of_string hi)))
   | _ -> failwith "doc: expected `lo hi | tree`"
 
+(* ---------------------------------------------------------------------------------------------
+   sym: one workspace per line.  Sections separated by " || ":
+     OP <code> <args..>     one symbol-map op (hook H3 log line, encoded by lib/outlib.py: names/types as
+                            comma-separated code points, "-" = empty)
+     FILE <fid> <tree>      the real tree of a workspace file
+     Q outline <fid> | Q hover <fid> <off> <off> .. | Q hints <fid> <lo> <hi>
+   Output: one JSON object: {"err": "..."} when the op log does not replay, else {"results": [...]} with one
+   entry per query. *)
+let name_of_tok (s : ostring) : n list =
+  if s = "-" then [] else List.map (fun x -> n_of_int (int_of_string x)) (String.split_on_char ',' s)
+let ni s = n_of_int (int_of_string s)
+let fr f lo hi = { fr_file = ni f; fr_lo = ni lo; fr_hi = ni hi }
+let kind_of_tok = function
+  | "record" -> KRecord | "template_arg" -> KTemplateArg | "record_field" -> KRecordField | "variable" -> KVariable
+  | "defset" -> KDefset | "multiclass" -> KMulticlass | "defm" -> KDefm | s -> failwith ("kind " ^ s)
+let parse_op (toks : ostring list) : op =
+  match toks with
+  | ["AR"; nm; k; f; lo; hi; g; id] -> OpAddRecord (name_of_tok nm, (if k = "C" then RKClass else RKDef), fr f lo hi, g = "1", ni id)
+  | ["AAD"; nm; f; lo; hi; id] -> OpAddAnonymousDef (name_of_tok nm, fr f lo hi, ni id)
+  | ["ATA"; nm; ty; f; lo; hi; id] -> OpAddTemplateArg (name_of_tok nm, name_of_tok ty, fr f lo hi, ni id)
+  | ["ARF"; nm; ty; f; lo; hi; par; id] -> OpAddRecordField (name_of_tok nm, name_of_tok ty, fr f lo hi, ni par, ni id)
+  | ["AV"; nm; ty; f; lo; hi; id] -> OpAddVariable (name_of_tok nm, name_of_tok ty, fr f lo hi, ni id)
+  | ["ADS"; nm; ty; f; lo; hi; id] -> OpAddDefset (name_of_tok nm, name_of_tok ty, fr f lo hi, ni id)
+  | ["AMC"; nm; f; lo; hi; id] -> OpAddMulticlass (name_of_tok nm, fr f lo hi, ni id)
+  | ["ADM"; nm; f; lo; hi; g; id] -> OpAddDefm (name_of_tok nm, fr f lo hi, g = "1", ni id)
+  | ["AADM"; nm; f; lo; hi; id] -> OpAddAnonymousDefm (name_of_tok nm, fr f lo hi, ni id)
+  | ["REF"; k; idx; f; lo; hi] -> OpAddReference ((kind_of_tok k, ni idx), fr f lo hi)
+  | ["RM"; id] -> OpRecordMut (ni id)
+  | ["DSM"; id] -> OpDefsetMut (ni id)
+  | ["MCM"; id] -> OpMulticlassMut (ni id)
+  | ["DMM"; id] -> OpDefmMut (ni id)
+  | ["RTA"; nm; id] -> OpRecAddTemplateArg (name_of_tok nm, ni id)
+  | ["RF"; nm; id] -> OpRecAddField (name_of_tok nm, ni id)
+  | ["RP"; id] -> OpRecAddParent (ni id)
+  | ["DAD"; id] -> OpDefsetAddDef (ni id)
+  | ["MTA"; nm; id] -> OpMcAddTemplateArg (name_of_tok nm, ni id)
+  | ["MP"; id] -> OpMcAddParent (ni id)
+  | ["DMP"; id] -> OpDefmAddParent (ni id)
+  | ["ERR"; f; lo; hi] -> OpError (fr f lo hi)
+  | _ -> failwith ("bad op: " ^ String.concat " " toks)
+
+let split_sections (line : ostring) : ostring list list =
+  (* split the token list at "||" *)
+  let rec go acc cur = function
+    | [] -> List.rev (List.rev cur :: acc)
+    | "||" :: r -> go (List.rev cur :: acc) [] r
+    | x :: r -> go acc (x :: cur) r in
+  List.filter (fun s -> s <> []) (go [] [] (split_ws line))
+
+let jname (nm : n list) : ostring = "[" ^ String.concat "," (List.map (fun c -> string_of_int (int_of_n c)) nm) ^ "]"
+let dk_string = function
+  | DKClass -> "Class" | DKTemplateArgument -> "TemplateArgument" | DKField -> "Field" | DKDef -> "Def"
+  | DKVariable -> "Variable" | DKDefset -> "Defset" | DKMulticlass -> "Multiclass"
+let rec jdocsym (DocSym (nm, typ, lo, hi, k, ch)) : ostring =
+  Printf.sprintf "{\"name\":%s,\"typ\":%s,\"range\":[%d,%d],\"kind\":\"%s\",\"children\":[%s]}"
+    (jname nm) (jname typ) (int_of_n lo) (int_of_n hi) (dk_string k) (String.concat "," (List.map jdocsym ch))
+let err_string = function
+  | EInvalidId _ -> "invalid id" | EIntervalEmpty -> "interval empty" | EAnonymousNotDef -> "anonymous not def"
+  | ENoCursor -> "no cursor" | EIdMismatch -> "id mismatch" | EOutOfFuel -> "out of fuel"
+let jdoc = function
+  | DocSome d -> jname d | DocNone -> "null" | DocOutOfFuel -> "\"OOF\""
+
+let cmd_sym line =
+  let secs = split_sections line in
+  let ops = List.filter_map (function "OP" :: r -> Some (parse_op r) | _ -> None) secs in
+  let files = List.filter_map (function "FILE" :: fid :: r -> Some (int_of_string fid, fst (parse_tree r)) | _ -> None) secs in
+  let trees (f : n) = List.assoc_opt (int_of_n f) files in
+  match run_ops ops with
+  | SErr e -> "{\"err\":\"op log does not replay: " ^ err_string e ^ "\"}"
+  | SOk st ->
+      let q = function
+        | ["Q"; "outline"; fid] ->
+            (match document_symbol st (ni fid) with
+             | SErr e -> Some ("{\"panic\":\"" ^ err_string e ^ "\"}")
+             | SOk None -> Some "null"
+             | SOk (Some l) -> Some ("[" ^ String.concat "," (List.map jdocsym l) ^ "]"))
+        | "Q" :: "hover" :: fid :: offs ->
+            let b = Buffer.create 1024 in
+            let prev = ref "" in
+            let first = ref true in
+            List.iter (fun o ->
+              let e =
+                match hover st trees (ni fid) (ni o), goto_definition st (ni fid) (ni o) with
+                | SErr e, _ | _, SErr e -> "{\"panic\":\"" ^ err_string e ^ "\"}"
+                | SOk h, SOk d ->
+                    let hs = (match h with None -> "null"
+                              | Some (sg, doc) -> Printf.sprintf "{\"sig\":%s,\"doc\":%s}" (jname sg) (jdoc doc)) in
+                    let ds = (match d with None -> "null"
+                              | Some r -> Printf.sprintf "[%d,%d,%d]" (int_of_n r.fr_file) (int_of_n r.fr_lo) (int_of_n r.fr_hi)) in
+                    Printf.sprintf "\"hover\":%s,\"def\":%s" hs ds in
+              if e <> !prev then begin
+                if not !first then Buffer.add_char b ',';
+                first := false;
+                Buffer.add_string b (Printf.sprintf "{\"o\":%s,%s}" o e);
+                prev := e
+              end) offs;
+            Some ("[" ^ Buffer.contents b ^ "]")
+        | ["Q"; "hints"; fid; lo; hi] ->
+            (match inlay_hint st trees (fr fid lo hi) with
+             | SErr e -> Some ("{\"panic\":\"" ^ err_string e ^ "\"}")
+             | SOk None -> Some "null"
+             | SOk (Some l) ->
+                 Some ("[" ^ String.concat "," (List.map (fun h ->
+                   Printf.sprintf "[%d,%s,\"%s\"]" (int_of_n h.h_pos) (jname h.h_label)
+                     (match h.h_kind with HKTemplateArg -> "TemplateArg" | HKFieldLet -> "FieldLet")) l) ^ "]"))
+        | "Q" :: _ -> failwith "bad query"
+        | _ -> None in
+      "{\"results\":[" ^ String.concat "," (List.filter_map q secs) ^ "]}"
+
 let () =
   match Sys.argv with
+  | [| _; "sym" |] -> each_line cmd_sym
   | [| _; "fold" |] -> each_line cmd_fold
   | [| _; "doc" |] -> each_line (cmd_doc_with extract_doc_comments)
   | [| _; "docrowan" |] -> each_line (cmd_doc_with extract_doc_comments_rowan)
